@@ -37,12 +37,23 @@ BLOCKISH_PARENTS = {'preface', 'preamble', 'conclusions', 'item', 'content', 'in
                     'authorialNote', 'embeddedStructure', 'mainBody', 'introduction', 'background', 'arguments', 'remedies', 'motivation', 'decision',
                     'listIntroduction', 'listWrapUp', 'p', 'heading', 'subheading'}
 
-def first_error(xml):
+def all_errors(xml):
+    """every distinct (element, parent, kind) the validator reports, in order"""
     from cobalt.schemas import get_schema
     schema = get_schema('http://docs.oasis-open.org/legaldocml/ns/akn/3.0', False)
     if schema(xml):
-        return None
-    e = schema.error_log[0]
+        return []
+    out = []
+    for e in schema.error_log:
+        t = _triple(xml, e)
+        if t not in out: out.append(t)
+    return out
+
+def first_error(xml):
+    errs = all_errors(xml)
+    return errs[0] if errs else None
+
+def _triple(xml, e):
     msg = re.sub(r"\{http[^}]*\}", "", str(e.message))
     m = re.match(r"Element '([^']+)'(?:, attribute '([^']+)')?: (.*)", msg)
     if not m:
@@ -66,13 +77,14 @@ def _oracle(args):
         xml = AkomaNtosoParser(FrbrUri.parse(uri), prefix).parse_to_xml(text, root)
     except Exception as e:
         return ('raised', impl.exc_kind(e), 0)
-    err = first_error(xml)
+    errs = all_errors(xml)
     n = sum(1 for _ in xml.iter()) - 25
-    if err is None:
+    # attributes written in the markup that the schema does not allow, or of the wrong type, are outside the property;
+    # the by attribute that bluebell derives itself is not
+    errs = [e for e in errs if not e[2].startswith('attr:') or (e[2] == 'attr:by' and '{by' not in text and 'by ' not in text)]
+    if not errs:
         return ('ok', None, n)
-    if err[2].startswith('attr:'):
-        return ('outside-proviso', err, n)      # an attribute (from mutated markup) the schema does not allow / of the wrong type
-    return ('bad', err, n)
+    return ('bad', errs, n)
 
 def cases(ctx, n):
     old = gen.gen_attrs
@@ -105,8 +117,9 @@ def search(ctx, budget):
     for c, r in zip(cs, impl.pmap(_oracle, cs, chunk=8)):
         ctx.evaluations += 1; ctx.count('oracle_' + r[0])
         if r[0] == 'bad':
-            ctx.failures.append(({'stage': 'e2e', 'uri': c[0], 'root': c[1], 'prefix': c[2], 'text': c[3], 'error': list(r[1])},
-                                 'schema-invalid: element %s under %s: %s' % r[1]))
+            for err in r[1]:        # every reported error is classified on its own: a listed finding does not hide another defect in the same document
+                ctx.failures.append(({'stage': 'e2e', 'uri': c[0], 'root': c[1], 'prefix': c[2], 'text': c[3], 'error': list(err)},
+                                     'schema-invalid: element %s under %s: %s' % tuple(err)))
         elif r[0] == 'ok' and r[2] >= 8:
             ctx.nontrivial((c[1], c[3]))
     ctx.sample({'root': cs[0][1], 'text': cs[0][3][:500]})
@@ -115,7 +128,8 @@ def probe_disagreement(ctx, stage, case):
     if stage == 'e2e':
         r = _oracle((case['uri'], case['root'], case['prefix'], case['text']))
         if r[0] == 'bad':
-            ctx.failures.append((dict(case, stage='e2e', error=list(r[1])), 'schema-invalid: element %s under %s: %s' % r[1]))
+            for err in r[1]:
+                ctx.failures.append((dict(case, stage='e2e', error=list(err)), 'schema-invalid: element %s under %s: %s' % tuple(err)))
 
 def _err(case):
     e = case.get('error') or ['?', None, '?']
